@@ -386,7 +386,22 @@ func c06Build(r *sim.Run, t *sim.Tape, scheme string, first bool) (*mp4.InitSegm
 
 func synthNALSample(t *sim.Tape, rnd *sim.Rand) []byte {
 	var out []byte
-	for i := 0; i < 1+t.Draw(3); i++ {
+	nn := 1 + t.Draw(3)
+	many := t.Chance(40)
+	if many {
+		nn = 35 + t.Draw(30) // many slices in one sample: 40 sub-sample entries make the aux info exceed 255 bytes
+	}
+	for i := 0; i < nn; i++ {
+		if many {
+			n := 113 + t.Draw(40)
+			nalu := make([]byte, n)
+			rnd.Fill(nalu)
+			nalu[0] = 0x41
+			var l [4]byte
+			binary.BigEndian.PutUint32(l[:], uint32(n))
+			out = append(append(out, l[:]...), nalu...)
+			continue
+		}
 		n := []int{1, 2, 15, 16, 17, 100, 111, 112, 113, 127, 128, 129, 144, 145, 1000, 65535 + 200}[t.Draw(16)]
 		nalu := make([]byte, n)
 		rnd.Fill(nalu)
